@@ -187,6 +187,25 @@ def oracleC07 (o : OSt) (op : OpKind) (log : List String) (cur : World) : String
   let twice := created.find? (fun k => (lookup o.jobCreates k).getD 0 ≥ 1)
   let createdCompleted := created.find? (fun k => match findTrial o.prev k with | some t => tCompleted t | none => true)
   let deletedUnfinished := deleted.find? (fun k => match findTrial o.prev k with | some t => !tCompleted t | none => false)
+  -- a Trial under deletion loses its finalizer (or disappears) only in a reconcile whose database clean-up succeeded
+  let released : Option Key2 := match op with
+    | .recTrial k =>
+      (match findTrial o.prev k with
+       | some p =>
+         if p.deleted && p.fin && (match findTrial cur k with | some t => !t.fin | none => true) &&
+            !log.contains ("db.delete." ++ k.name ++ ":ok") then some k else none
+       | none => none)
+    | _ => none
+  let rowsLeft : Option Key2 := match op with
+    | .recTrial k =>
+      (match findTrial o.prev k, findTrial cur k with
+       | some p, none => if p.deleted && cur.db.any (fun r => r.1 = k.name) then some k else none
+       | _, _ => none)
+    | _ => none
+  match released, rowsLeft with
+  | some k, _ => s!"fail finalizer-released-without-database-cleanup {k.name}"
+  | _, some k => s!"fail observation-log-remains-after-trial-deletion {k.name}"
+  | _, _ =>
   match twice, createdCompleted, deletedUnfinished with
   | some k, _, _ => s!"fail run-object-created-twice {k.name}"
   | _, some k, _ => s!"fail run-object-created-for-completed-or-absent-trial {k.name}"
